@@ -1,7 +1,7 @@
 use crate::parser::il::PreExp;
 use crate::parser::model_transformer::TransformError;
 use crate::parser::model_transformer::TransformerContext;
-use crate::runtime_builtin::rooc_std::{std_fn_to_latex, std_fn_to_string};
+use crate::runtime_builtin::rooc_std::std_fn_to_latex;
 use crate::traits::{ToLatex, escape_latex};
 use crate::type_checker::type_checker_context::{FunctionContext, TypeCheckerContext};
 use crate::{
@@ -173,10 +173,7 @@ impl TypeCheckable for FunctionCall {
 
 impl fmt::Display for FunctionCall {
     fn fmt(&self, f: &mut fmt::Formatter<'_>) -> fmt::Result {
-        let builtin = std_fn_to_string(self);
-        if let Some(string) = builtin {
-            return write!(f, "{}", string);
-        }
+        //the a..b shorthand of range is only valid as an iterator, where IterableSet writes it
         write!(f, "{}", default_rooc_function_to_string(self))
     }
 }
